@@ -106,6 +106,26 @@ func c12Ops(u *nodelite.Universe, thorough, race bool) []c12Op {
 	return ops
 }
 
+// c12RefOps: pinning uploads that chunkinfo does not reference-count (POST /bytes, POST /chunks) and the
+// removal of their pins (DELETE /pins/{reference}).
+func c12RefOps(u *nodelite.Universe) []c12Op {
+	bref := u.ByName["B"].Ref
+	var xaddr boson.Address
+	for k, v := range u.Names {
+		if v == "x" {
+			xaddr = boson.MustParseHexAddress(k)
+		}
+	}
+	return []c12Op{
+		{name: "chunk+pin(x)", upload: true, run: func(n *nodelite.Node) string {
+			c, _ := n.UploadChunk(c12SpanChunk('x'), true)
+			return fmt.Sprint(c)
+		}},
+		{name: "unpin(bytes B)", run: func(n *nodelite.Node) string { return fmt.Sprint(n.UnpinAPI(bref)) }},
+		{name: "unpin(chunk x)", run: func(n *nodelite.Node) string { return fmt.Sprint(n.UnpinAPI(xaddr)) }},
+	}
+}
+
 func c12Names(m map[string]bool) string {
 	var ks []string
 	for k := range m {
@@ -137,6 +157,24 @@ func TestVerifC12(t *testing.T) {
 	for _, o := range raceOps {
 		raceNames = append(raceNames, o.name)
 	}
+	// what a pinned reference contains: manifest roots -> whole tree, file entries (/bytes references) ->
+	// entry root + data chunks, single chunks -> themselves
+	refClosure := map[string][]string{}
+	for _, f := range u.Files {
+		var all, entry []string
+		for _, a := range f.Closure {
+			all = append(all, u.Name(a))
+		}
+		refClosure[u.Name(f.Root)] = all
+		entry = append(entry, u.Name(f.Ref))
+		for _, a := range f.DataCid {
+			entry = append(entry, u.Name(a))
+			refClosure[u.Name(a)] = []string{u.Name(a)}
+		}
+		if _, ok := refClosure[u.Name(f.Ref)]; !ok || len(entry) > len(refClosure[u.Name(f.Ref)]) {
+			refClosure[u.Name(f.Ref)] = entry
+		}
+	}
 	const gcCap = 8
 	mc.Run(t, mc.Config{ID: "C12", Name: "C12-gc-pins-uploads", MaxDev: 1, Params: map[string]interface{}{
 		"race_alphabet": raceNames, "max_racing_ops": 1,
@@ -155,7 +193,9 @@ func TestVerifC12(t *testing.T) {
 		// cached; gcSize 7 of capacity 8 — so that histories with two successive collection runs over
 		// shared and repeated chunks are inside the bound (depth-2 steps)
 		steps := depth
-		populated := x.Choose(2) == 1
+		initState := x.Choose(3)
+		populated := initState == 1
+		pinnedShared := initState == 2
 		// quick: cache(R) is offered only on top of the populated state (thorough: everywhere)
 		stepOps := ops
 		if !populated && !thorough {
@@ -165,6 +205,34 @@ func TestVerifC12(t *testing.T) {
 					stepOps = append(stepOps, o)
 				}
 			}
+		}
+		if pinnedShared {
+			// cached A=[x,y]; then two pinning uploads that chunkinfo does not count, both containing x:
+			// POST /bytes B=[x,z] and POST /chunks x. On top of it the pins can be removed one by one
+			// (pin counts are reference counts) before the store overflows.
+			steps = depth - 2
+			stepOps = append(append([]c12Op{}, stepOps...), c12RefOps(u)...)
+			x.NoErr(n.Cache(u.ByName["A"]), "initial cache(A)")
+			registered["A"] = true
+			s0, err := n.Snap()
+			x.NoErr(err, "snapshot")
+			if c, _ := n.UploadBytes(u.ByName["B"].Data, true); c != 201 {
+				x.Broken("initial pinned /bytes upload of B: %d", c)
+			}
+			if c, _ := n.UploadChunk(c12SpanChunk('x'), true); c != 201 {
+				x.Broken("initial pinned /chunks upload of x: %d", c)
+			}
+			s1, err := n.Snap()
+			x.NoErr(err, "snapshot")
+			for c := range s1.Data {
+				if !s0.Data[c] {
+					uploaded[c] = true
+				}
+			}
+			if s1.Trigger {
+				x.Broken("initial state requests a collection run")
+			}
+			x.Logf("initial state: cache(A), bytes+pin(B), chunk+pin(x)   [%s]", s1.Key())
 		}
 		if populated {
 			steps = depth - 2
@@ -260,6 +328,14 @@ func TestVerifC12(t *testing.T) {
 					}
 				}
 				res := n.GCHooked(gcCap, func(run int) { race("gc iterator hook") })
+				// references listed as pinned (GET /pins; a collection run never touches root pins)
+				var pinnedRefsBefore []string
+				if _, refs := n.ListPinsAPI(); true {
+					for _, r := range refs {
+						pinnedRefsBefore = append(pinnedRefsBefore, u.Name(r))
+					}
+					sort.Strings(pinnedRefsBefore)
+				}
 				n.OnGCDelFile, n.AfterGCDelFile = nil, nil
 				gcRuns += res.Runs
 				s2, err := n.Snap()
@@ -392,6 +468,16 @@ func TestVerifC12(t *testing.T) {
 				for _, c := range ps {
 					if s1.Pin[c] != s2.Pin[c] {
 						x.Fail("gc-changed-pin-count", "GC changed the pin count of %s from %d to %d; %s", c, s1.Pin[c], s2.Pin[c], ctx)
+					}
+				}
+				// 2b. content of references that are listed as pinned (root pin present) must survive, whatever
+				// the pin index says about the single chunks: pin counts are reference counts, a chunk pinned
+				// through two references stays protected while one of them is pinned
+				for _, pr := range pinnedRefsBefore {
+					for _, c := range refClosure[pr] {
+						if s1.Data[c] && !s2.Data[c] {
+							x.Fail("gc-deleted-chunk-of-pinned-reference", "GC deleted %s (pin count in the index: %d) although reference %s, which contains it, is listed as pinned; %s", c, s1.Pin[c], pr, ctx)
+						}
 					}
 				}
 				// 3. uploaded chunks
